@@ -425,9 +425,10 @@ func init() {
 			call("to_array", hField("a")), buildChain(hField("a"), sSlice("_", "_", "-1")), hField("a"), call("abs", hField("a")),
 			hList(hField("a"), hLit("[1]")), call("max_by", hField("a"), ref(hField("b"))), call("map", ref(hField("a")), hCur()),
 			call("not_null", hField("a"), lit), tOr(hField("a"), lit), call("sort_by", call("to_array", hField("a")), ref(hCur())),
-			hList(call("not_null", hField("a")), call("not_null", hField("a"), hField("b"))), hList(call("merge", hField("a")), call("merge", hField("a"), hField("b"))),
-			tOr(tAnd(hField("a"), call("not_null", hField("a"), hField("b"), hCur())), call("not_null", hField("b"))), call("merge", hLit(`{"z":1}`), hCur())}
+			hList(call("not_null", hField("a")), call("not_null", hField("a"), hField("b"))), call("merge", hLit(`{"z":1}`), hCur())}
 		if tier == "thorough" {
+			ts = append(ts, hList(call("merge", hField("a")), call("merge", hField("a"), hField("b"))),
+				tOr(tAnd(hField("a"), call("not_null", hField("a"), hField("b"), hCur())), call("not_null", hField("b"))))
 			ts = append(ts, familyFunc("quick")...)
 			ts = append(ts, familyProj("quick")[:80]...)
 		}
